@@ -140,6 +140,10 @@ def classify(mod, rec):
         return "violation", oracle.get("why", "oracle failed")
     if eq:
         return "pass", ""
+    if getattr(mod, "MODEL_IS_SPEC", False):
+        # the property is itself "behaves like this model" (e.g. C12: like a plain tree under the same
+        # operations): a disagreement on a concrete input is a failing input for the property
+        return "violation", "the implementation's observable behaviour differs from the tree model on this history"
     if oracle is None:
         # no independent oracle for this kind: a disagreement with the proved model is
         # a correspondence break on this input
